@@ -34,6 +34,10 @@ CLAIMED = {
          "Machine-checked theorems over an executable model of borrow()/take() and the Borrowed/Taken sentinels: in every reachable world each active borrow's lender is Borrowed (all its I/O and state calls raise ChannelBorrowedError and change nothing), the borrower is Live with a copy of the configuration, the end of the borrow (normal or exceptional) restores the lender; a taken handle stays Taken for ever whatever is done on any handle, reports closed, and closing it leaves the transport open; configuration writes on one handle never affect another. Tied to /repo by differential runs over all short histories and random long ones on real Channel objects (in-place list mutation probes aliasing).",
          "Trusted: Coq kernel + vm_compute; hand-written model coq/Own.v (I/O abstracted to reaches-transport-or-raises); the correspondence harness; LIFO borrow contexts.",
          "DESIGN.md 8/C07"),
+ "C13": ("Coq proof over a model of Machine.__enter__/__exit__ + ExitStack unwinding + PowerControl + ConsoleConnector with an arbitrary fault oracle (session lemmas, balance invariant by induction over programs) + correspondence on dynamically composed instrumented machine classes",
+         "Machine-checked theorems, for EVERY fault pattern (a list of booleans consumed one per check point: any number of faults in setup, body, teardown): the first enter runs the init sequence in order then the hook, or unwinds every entered step in reverse order exactly once and propagates; nested enters/exits only count; the last exit tears everything down in reverse whatever raises; a failed power-on still powers off, a failed power_check does not power on; after any program the counter is 0, the stack empty, begins = ends and power-ons = power-offs; power-off sits after the later-started steps and before the connector. Tied to /repo by differential runs over compositions x programs x (no / every single / pairs / random) faults against real machine classes built with type(), plus an independent reference interpreter written from the property text.",
+         "Trusted: Coq kernel + vm_compute; hand-written model coq/Machine.v; CPython's contextlib semantics as modelled; the harness' instrumented mixins; the documented stage order is tied by correspondence, not proved about Python's MRO.",
+         "DESIGN.md 8/C13"),
 }
 NOT_YET = "check not built yet (work in progress; will be claimed once its Coq theorems and correspondence check exist)"
 
